@@ -308,6 +308,18 @@ def _c_mknod(ctx):
             sw = blk
     if sw is None:
         return [violated("C14.R3", "pathrs_inroot_mknod:switch", cb.where(), "S_IFMT switch not found")]
+    # permission bits handed on = the C mode with exactly the type bits removed (suid/sgid/sticky included)
+    from ..bits import Bits
+    bits = Bits(cb, param_src=True)
+    fm = list(cb.calls("std::os::unix::fs::PermissionsExt::from_mode"))
+    if not fm:
+        out.append(violated("C14.R3", "pathrs_inroot_mknod:perms", cb.where(), "Permissions::from_mode not found in the C mknod decoder"))
+    for t in fm:
+        v = bits.arg_value(t, 0)
+        okp = v is not None and all(a.src is not None and (a.keep & 0o7777) == 0o7777 and (a.c & S_IFMT) == S_IFMT for a in v.alts)
+        (out.append(holds("C14.R3", "pathrs_inroot_mknod:perms", t.where(), "permissions = mode with S_IFMT removed; all of 0o7777 preserved")) if okp else
+         out.append(violated("C14.R3", "pathrs_inroot_mknod:perms", t.where(),
+                             "the mode handed to mknodat/mkdirat is not the C caller's mode minus the type bits (%r): e.g. S_ISVTX/S_ISUID/S_ISGID are dropped, so mkdir 01777 creates a world-writable directory without the sticky bit" % (v,))))
     # discriminant = mode & S_IFMT
     adt = F.adts.get("root::InodeType")
     for e in cfg.succ.get(sw.idx, []):
